@@ -224,7 +224,7 @@ def run(ctx, lean, findings):
 
     # ---- the recorded findings, replayed in their minimal form ------------------------------------------------
     for f in findings:
-        if f.get('status') == 'open' and f.get('replay'):
+        if f.get('property') == PROP and f.get('status') == 'open' and f.get('replay'):
             r = f['replay']
             res = oracle_fixed(ctx, d, r['object'], r['rows'], r.get('fmt', 'N-TRIPLES'))
             if res:
